@@ -492,7 +492,7 @@ class Evaluator:
         elif isinstance(st, ast.Pass):
             return
         elif isinstance(st, ast.Raise):
-            name = "Exception"
+            name = (getattr(self, "_handling", None) or ["Exception"])[-1] if st.exc is None else "Exception"
             if st.exc is not None:
                 e = st.exc.func if isinstance(st.exc, ast.Call) else st.exc
                 name = ast.unparse(e)
@@ -560,7 +560,11 @@ class Evaluator:
                     if self._exc_matches(err.exc_name, h.type):
                         if h.name:
                             self.env[h.name] = Sym(f"exc:{err.exc_name}")
-                        self.run_block(h.body)
+                        self._handling = getattr(self, "_handling", []) + [err.exc_name]  # a bare `raise` in the handler re-raises it
+                        try:
+                            self.run_block(h.body)
+                        finally:
+                            self._handling = self._handling[:-1]
                         break
                 else:
                     raise
